@@ -13,7 +13,8 @@ CLAIMED = {
              "sat answers are replayed against a 4th-order finite difference on the real library.",
         note="float64 as exact reals; module grid, mesh/vector sizes and option combinations are enumerated (bounds in the "
              "evidence); inner linear solvers are contract oracles (C05 covers them); EXP/LOG/SQRT/POW uninterpreted with "
-             "ground axioms; AutoMod, plotting and sizes beyond the grid are outside the claim."),
+             "ground axioms; sparse EigenSolve sensitivities on n=3 / two modes with an any-solution oracle for the singular adjoint systems; "
+             "AutoMod, plotting and sizes beyond the grid are outside the claim."),
     "C04": dict(
         text="Same symbolic runs as C01 but the obligations relate several real runs on one module instance: "
              "g(a*w1+b*w2) == a*g(w1)+b*g(w2), two sensitivity() calls == 2x, states term-equal before/after "
@@ -39,7 +40,10 @@ CLAIMED = {
              "aggregation with an active set) are driven through histories of set-input / response / seed / sensitivity / "
              "reset calls with independent symbolic inputs and seeds per cycle; every state and sensitivity after the "
              "last cycle is compared entry-wise (z3) with a freshly built identical network evaluated once; reset() must "
-             "leave no sensitivity, an unseeded sensitivity() must change nothing.",
+             "leave no sensitivity, an unseeded sensitivity() must change nothing. Templates also cover dense and sparse "
+             "EigenSolve (class change between cycles, per-mode seeding over two rounds), several seed passes after one "
+             "response and a real-then-complex scaling of one assembly module; preconditions of stubbed LAPACK routines "
+             "(eigh: Hermitian input) are obligations of the path.",
         note="float64 as exact reals; linear solves through exact factor models / the unique explicit solution so that "
              "both networks give comparable terms; 6 history shapes (<= 14 calls); path budgets stated; D11 (solver and "
              "symmetry flags kept from the first matrix) is a known finding confined to the class-change templates."),
@@ -48,7 +52,9 @@ CLAIMED = {
              "oracle, for every off-diagonal zero pattern of 2x2 (3x3 thorough) matrices and histories of update/solve "
              "calls with new, repeated, scaled, summed, zero, complex and block right-hand sides in N/T/H order; every "
              "returned x must satisfy op(A) x = b as a rational identity (z3), dependent right-hand sides must not reach "
-             "the inner solver, update() must clear the stores.",
+             "the inner solver, update() must clear the stores. Histories include initial guesses, blocks with a known first "
+             "column, T solves before and after update(), real right-hand sides after complex ones with NumPy's in-place "
+             "casting rule modelled, and complex matrices without symmetry.",
         note="float64 as exact reals; wrapper tolerance 0 so that reuse means an exactly zero residual; norms are compared on "
              "squares; complex classes only in the thorough tier (partly inconclusive); D11 (flags kept across update) is a "
              "known finding."),
